@@ -373,5 +373,7 @@ class ObjMixin:
             ca = o.cls.find_class_attr(name)
             if ca is not None and ca[1][0] is not None and isinstance(ca[1][0], ast.Call):
                 pass
+        if isinstance(val, TNode) and getattr(val, "owner", None) is None:
+            val.owner = (o.tag, name)
         o.attrs[name] = val
         o.attr_phase[name] = self.phase
